@@ -1,4 +1,5 @@
 pub mod common;
+pub mod disturb;
 pub mod c01;
 pub mod c02;
 pub mod c03;
